@@ -22,15 +22,36 @@ import (
 type memConn struct {
 	far  []byte
 	peer *mock.ScriptReader
+	// fault injection: the failAt-th Write (1-based) accepts only `partial` bytes and fails
+	writes, failAt, partial int
+	timeout                 bool
 }
+
+type connErr struct{ to bool }
+
+func (e connErr) Error() string   { return "injected connection failure" }
+func (e connErr) Timeout() bool   { return e.to }
+func (e connErr) Temporary() bool { return e.to }
 
 type maddr struct{}
 
 func (maddr) Network() string { return "mem" }
 func (maddr) String() string  { return "mem" }
 
-func (c *memConn) Read(p []byte) (int, error)       { return c.peer.Read(p) }
-func (c *memConn) Write(p []byte) (int, error)      { c.far = append(c.far, p...); return len(p), nil }
+func (c *memConn) Read(p []byte) (int, error) { return c.peer.Read(p) }
+func (c *memConn) Write(p []byte) (int, error) {
+	c.writes++
+	if c.failAt > 0 && c.writes == c.failAt {
+		n := c.partial
+		if n > len(p) {
+			n = len(p)
+		}
+		c.far = append(c.far, p[:n]...)
+		return n, connErr{c.timeout}
+	}
+	c.far = append(c.far, p...)
+	return len(p), nil
+}
 func (c *memConn) Close() error                     { return nil }
 func (c *memConn) LocalAddr() net.Addr              { return maddr{} }
 func (c *memConn) RemoteAddr() net.Addr             { return maddr{} }
@@ -59,11 +80,14 @@ func (o wop) coq() string {
 }
 
 type bcase struct {
-	RSize int         `json:"rsize"`
-	WSize int         `json:"wsize"`
-	Ops   []wop       `json:"ops"`
-	Peer  wire.Script `json:"peer"`
-	Ks    []int       `json:"ks"`
+	FailAt  int         `json:"failat,omitempty"`  // connection fault: the k-th Write on the connection fails ...
+	Partial int         `json:"partial,omitempty"` // ... after accepting this many bytes
+	Timeout bool        `json:"timeout,omitempty"` // ... with a timeout net.Error (else a plain one)
+	RSize   int         `json:"rsize"`
+	WSize   int         `json:"wsize"`
+	Ops     []wop       `json:"ops"`
+	Peer    wire.Script `json:"peer"`
+	Ks      []int       `json:"ks"`
 }
 
 func sizeAround(rng *hx.Rng, w int) int {
@@ -117,7 +141,52 @@ type obs struct {
 	Bad     string
 }
 
+// runFault: the same op sequence over a connection whose k-th Write fails (possibly a timeout, possibly after
+// partial progress).  Oracles: the peer's bytes are always a prefix of the bytes the calls reported as accepted, in call order; a Flush that
+// reports success means the peer has every byte the earlier calls reported as accepted.
+func runFault(c bcase) (bad string) {
+	conn := &memConn{peer: c.Peer.Reader(), failAt: c.FailAt, partial: c.Partial, timeout: c.Timeout}
+	tr := transport.NewTransport(conn, c.RSize, c.WSize)
+	var accepted []byte
+	for i, op := range c.Ops {
+		switch op.Kind {
+		case "write":
+			b := wire.Cat(op.P)
+			n, err := tr.Write(b)
+			if n < 0 || n > len(b) || (err == nil && n != len(b)) {
+				return fmt.Sprintf("op %d: Write returned %d, %v for %d bytes", i, n, err, len(b))
+			}
+			accepted = append(accepted, b[:n]...)
+		case "writev":
+			var bufs net.Buffers
+			var all []byte
+			for _, p := range op.Ps {
+				b := wire.Cat(p)
+				bufs = append(bufs, b)
+				all = append(all, b...)
+			}
+			n, err := tr.Writev(bufs)
+			if n < 0 || int(n) > len(all) || (err == nil && int(n) != len(all)) {
+				return fmt.Sprintf("op %d: Writev returned %d, %v for %d bytes", i, n, err, len(all))
+			}
+			accepted = append(accepted, all[:n]...)
+		case "flush":
+			if err := tr.Flush(); err == nil && !bytes.Equal(conn.far, accepted) {
+				return fmt.Sprintf("op %d: Flush reported success but the peer has %d bytes while %d were accepted by the calls before it (connection write #%d failed earlier, timeout=%v, after %d bytes)", i, len(conn.far), len(accepted), c.FailAt, c.Timeout, c.Partial)
+			}
+		}
+		if !bytes.HasPrefix(accepted, conn.far) {
+			return fmt.Sprintf("op %d: the peer's bytes are not a prefix of the bytes the calls reported as accepted, in call order (after the injected failure of connection write #%d)", i, c.FailAt)
+		}
+	}
+	return ""
+}
+
 func run(c bcase) (o obs) {
+	if c.FailAt > 0 {
+		o.Bad = runFault(c)
+		return
+	}
 	conn := &memConn{peer: c.Peer.Reader()}
 	tr := transport.NewTransport(conn, c.RSize, c.WSize)
 	var written []byte
@@ -203,6 +272,9 @@ func main() {
 		if o.Bad != "" {
 			meta.Violate(hx.Violation{Property: "C17", What: o.Bad, Signature: "write-stream", Replay: rep})
 		}
+		if c.FailAt > 0 {
+			return ""
+		}
 		want := wire.Cat(c.Peer.Wire)
 		if !bytes.Equal(o.Read, want) {
 			meta.Violate(hx.Violation{Property: "C17", What: fmt.Sprintf("Read returned %d bytes in total, the peer sent %d (equal prefix: %v)", len(o.Read), len(want), bytes.HasPrefix(want, o.Read)), Signature: "read-stream", Replay: rep})
@@ -237,6 +309,18 @@ func main() {
 		if i < 3 {
 			meta.Sample(c)
 		}
+	}
+	// connection faults: the k-th Write on the connection fails (timeout or not, with partial progress), the
+	// wrapper is used again afterwards
+	nf := hx.Pick3(args.Tier, 300, 3000, 10000)
+	for i := 0; i < nf; i++ {
+		c := gen(rng, meta)
+		c.FailAt = 1 + rng.Intn(4)
+		c.Partial = []int{0, 0, 1, 3, 7}[rng.Intn(5)]
+		c.Timeout = rng.Bool()
+		meta.Count("fault", fmt.Sprintf("timeout=%v", c.Timeout))
+		check(c, n+i)
+		meta.Distinct(fmt.Sprint(c))
 	}
 	if args.Out != "" && args.Out != os.DevNull {
 		var sb strings.Builder
